@@ -231,6 +231,29 @@ class CacheModel(object):
                   self._alias_attrs.add(t.attr)
     return self._alias_attrs
 
+  def _filled_at_once(self, m, n, par):
+    """`q = self[metric]` whose every continuation (inside the function, normal flow) first passes an item store `q[k] = v`
+    before it can leave: the entry is created as the container of the datapoint that fills it, one statement apart."""
+    if not (isinstance(par, ast.Assign) and par.value is n and len(par.targets) == 1 and isinstance(par.targets[0], ast.Name)):
+      return False
+    q = par.targets[0].id
+    g = self.cx.cfg(m)
+    nodes = g.nodes_of(par)
+    if not nodes:
+      return False
+    fills = [x for x in g.nodes if x.kind == 'stmt' and isinstance(x.ast, ast.Assign) and
+             any(isinstance(t, ast.Subscript) and isinstance(t.value, ast.Name) and t.value.id == q for t in x.ast.targets)]
+    if not fills:
+      return False
+    r = g.reach(g.after(nodes[-1]), removed_nodes=set(fills), normal_only=True)
+    if g.exit in r:
+      return False
+    # nothing between the look-up and the fill may raise (a call would leave the empty entry behind)
+    for x in r:
+      if x.ast is not None and x.kind == 'stmt' and any(isinstance(c, ast.Call) for c in ast.walk(x.ast)):
+        return False
+    return True
+
   # ------------------------------------------------------------ accesses
   def _collect(self, m):
     out = []
@@ -259,6 +282,8 @@ class CacheModel(object):
         par = getattr(n, '_parent', None)
         if isinstance(par, ast.Subscript) and par.value is n and isinstance(par.ctx, ast.Store):
           pass        # container of an immediate item store: counted as 'insert'
+        elif self._filled_at_once(m, n, par):
+          pass        # q = self[metric] ... q[timestamp] = value on every path that follows: the same, through a local
         else:
           add('autoviv', n)
       if isinstance(n, ast.Call):
